@@ -351,6 +351,14 @@ pub fn drive(tier: &str) -> i32 {
             .map(|(_, s)| vcore::slots::program(&s))
             .collect(),
     ));
+    groups.push((
+        format!("statement soups: all sequences of <= {} statements over a {}-statement menu", if quick { 2 } else { 3 }, vcore::slots::SOUP_STATEMENTS.len()),
+        vcore::slots::statement_soups(if quick { 2 } else { 3 }, 30),
+    ));
+    groups.push((
+        format!("block skeletons: every block construct x optional parts x empty/comment/statement bodies, nesting depth {}", if quick { 1 } else { 2 }),
+        vcore::slots::block_skeletons(if quick { 1 } else { 2 }).into_iter().map(|b| format!("X = 0\n{}PRINT \"end\"\n", b)).collect(),
+    ));
     groups.push(("harvested texts as they are".into(), corpus.iter().map(|(_, t)| t.clone()).collect()));
 
     // seeds for edits: accepted programs; quick = first program per source file + fixtures
